@@ -15,6 +15,7 @@ import DfolsVerif.Proofs.Radius
 import DfolsVerif.Gen.KernelFns
 import DfolsVerif.Gen.ModelDecisions
 import DfolsVerif.Proofs.MainLoopPaths
+import DfolsVerif.Proofs.CtrlPaths
 
 namespace Dfols
 namespace C04
@@ -172,6 +173,32 @@ example : (MainLoopPaths.mStore.run ⟨false, false, false, false⟩
     (MainLoopPaths.mStore.run ⟨false, false, false, false⟩
     ["eval", "F:np.any(np.isnan(rvec_list))", "F:exit_info is not None", "ratio", "T:exit_info is not None", "nruns"]).excused = false := by
   decide
+
+/-- **the Controller never drops an evaluated point either**: for each of the eight Controller methods that call
+    `evaluate_objective` (growing, geometry step and its two callers, both regression routines, `soft_restart`, both
+    initialisations; skeletons with loops and `return`s translated from controller.py on every run) and EVERY execution of the
+    method (any number of iterations of any loop): outside the documented parallel initialisation there is never a second
+    evaluation while an evaluated point waits, and at `return` the evaluated point has gone to `change_point`, `add_new_point` or
+    `save_point` — unless nothing was evaluated (`num_samples_run > 0` false) or `choose_point_to_replace` failed for that very
+    point (`linalg_error`, growing routine only). -/
+theorem C04_src_controller_no_point_dropped {name : String} {p : SkelL.Prog} (hm : (name, p) ∈ CtrlPaths.methods)
+    {tr : List String} {e : SkelL.Ending} (hx : SkelL.Exec p tr e) :
+    let q := CtrlPaths.mS.run CtrlPaths.q0 tr
+    q.par = true ∨ (q.dropped = false ∧ (q.pend = true → q.excused = true)) := by
+  intro q
+  have h := CtrlPaths.no_drop hm hx
+  simp only [CtrlPaths.okS, Bool.or_eq_true, Bool.and_eq_true, Bool.not_eq_true'] at h
+  rcases h with h | ⟨h1, h2⟩
+  · exact Or.inl h
+  · refine Or.inr ⟨h1, fun hp => ?_⟩
+    rcases h2 with h2 | h2
+    · exact absurd hp (by simp [q, h2])
+    · exact h2
+
+/-- non-vacuity: eight methods, and the loop fixed points were reached (`wf`) -/
+example : CtrlPaths.methods.length = 8 ∧
+    SkelL.wf CtrlPaths.mS Gen.Ctrl.softRestart CtrlPaths.q0 = true ∧ SkelL.size Gen.Ctrl.initialiseCoordinateDirections > 50 := by
+  decide +kernel
 
 end C04
 end Dfols
